@@ -207,6 +207,7 @@ namespace fastscapelib
         std::vector<size_type> m_outlets;  // bottom nodes of basins
         std::vector<edge> m_edges;
         std::vector<size_type> m_tree;  // indices of edges
+        std::vector<std::uint8_t> m_edge_reached;  // tree edges reached from the root
 
         // root is used as a virtual basin graph node to which all outer basins are
         // connected, thus collecting the flow from the whole modeled domain. It
@@ -716,6 +717,13 @@ namespace fastscapelib
         // used to (re)initalize container index / position
         size_type init_idx = static_cast<size_type>(-1);
 
+        if (m_root == init_idx)
+        {
+            // no outer basin (no unmasked base level node): nothing can be resolved
+            m_tree.clear();
+            return;
+        }
+
         // nodes connections
         m_nodes_connects_size.resize(nbasins);
         std::fill(m_nodes_connects_size.begin(), m_nodes_connects_size.end(), size_t(0));
@@ -760,6 +768,10 @@ namespace fastscapelib
                                     m_root,
                                     std::numeric_limits<data_type>::min(),
                                     std::numeric_limits<data_type>::min() });
+
+        // tree edges reached from the root (basins that are not connected to
+        // any outer basin cannot be resolved: their edges are dropped below)
+        m_edge_reached.assign(m_edges.size(), 0);
 
         if (m_keep_order)
         {
@@ -813,9 +825,15 @@ namespace fastscapelib
                                                 node,
                                                 std::max(edg.pass_elevation, pass_elevation),
                                                 pass_elevation });
+                    m_edge_reached[m_nodes_adjacency[i]] = 1;
                 }
             }
         }
+
+        m_tree.erase(std::remove_if(m_tree.begin(),
+                                    m_tree.end(),
+                                    [this](size_type e) { return !m_edge_reached[e]; }),
+                     m_tree.end());
     }
 }
 
